@@ -3,6 +3,11 @@ import QF.Props.Tie
 namespace QF.Props.C09
 
 /-- T1: the functions this property's mirror model follows have today the source text the model was written against. -/
-theorem tie : Tie.sameAll ["qframe.QFrame.Equals", "qframe.QFrame.Len", "icolumn.Column.Equals", "fcolumn.Column.Equals", "bcolumn.Column.Equals", "scolumn.Column.Equals", "ecolumn.Column.Equals", "icolumn.View.Slice", "icolumn.View.ItemAt", "fcolumn.View.Slice", "bcolumn.View.Slice"] = true := by decide
+-- Tie audit (bin/selftest-ties): the following functions are not compared as text any more; every behaviour-changing edit of
+-- them makes a `gen_*_canon` theorem of this property's modules fail, renaming their locals or reformatting them changes nothing:
+-- `QFrame.Equals`: `Gen.guardAst2`, `C10Guards.gen_guards2_canon` + `gen_equals_semantics`. `QFrame.Len`: `Gen.lenAst`, `C08Guards.gen_len_canon` + `gen_len_semantics`.
+-- `Column.Equals` of the five column packages: `Gen.equalsAst`, `C09Observe.gen_equals_canon` + `gen_equals_eq_spec`.
+-- The typed views are regenerated in `Gen.view*Ast` (C09ViewsGen.gen_view_semantics); nothing of C09 is compared as text any more.
+theorem tie : Tie.sameAll [] = true := by decide
 
 end QF.Props.C09
